@@ -153,7 +153,7 @@ class Worker:
         if self.variant == "asan":
             env["ASAN_OPTIONS"] = (
                 "detect_leaks=1:halt_on_error=1:abort_on_error=1:allocator_may_return_null=1:"
-                "max_allocation_size_mb=4096:detect_stack_use_after_return=0:symbolize=1"
+                "max_allocation_size_mb=4096:hard_rss_limit_mb=8192:detect_stack_use_after_return=0:symbolize=1"
             )
             env["LSAN_OPTIONS"] = "report_objects=1"
             env["ASAN_SYMBOLIZER_PATH"] = shutil.which("llvm-symbolizer-14") or shutil.which("llvm-symbolizer") or ""
@@ -282,7 +282,11 @@ class Worker:
 
 
 def classify_death(rc, tail):
-    if "AddressSanitizer" in tail or "LeakSanitizer" in tail:
+    if "memory allocation of" in tail and "failed" in tail:
+        return "alloc"
+    if "hard rss limit exhausted" in tail or "failed to allocate" in tail and "ERROR: AddressSanitizer" not in tail:
+        return "alloc"
+    if "ERROR: AddressSanitizer" in tail or "ERROR: LeakSanitizer" in tail:
         m = re.search(r"ERROR: (AddressSanitizer|LeakSanitizer): ([A-Za-z0-9_\-]+)", tail)
         return "sanitizer(%s)" % (m.group(2) if m else "report")
     if "memory allocation of" in tail and "failed" in tail:
@@ -338,6 +342,8 @@ def msg_class(msg):
     m = re.sub(r"`[^`]*`", lambda x: x.group(0) if len(x.group(0)) < 40 else "`..`", m)
     m = re.sub(r"\"[^\"]*\"", "\"..\"", m)
     m = re.sub(r"-?\d+", "N", m)
+    # "Unexpected vertex type for uv: SingleN" -> keep the part in front of a trailing single token
+    m = re.sub(r"^(.{12,}?): [A-Za-z_][A-Za-z0-9_]*$", r"\1", m)
     m = " ".join(m.split())
     return m[:160]
 
@@ -457,6 +463,7 @@ class Stats:
     def __init__(self):
         self.evaluations = 0
         self.nontrivial = set()
+        self.nontrivial_n = 0  # distinct-by-construction non-trivial cases that are not kept in the set (fault batches)
         self.classes = collections.Counter()
         self.samples = []
         self.violations = []  # dicts: prop, kind, sig, detail, replay
@@ -471,6 +478,7 @@ class Stats:
     def merge(self, o):
         self.evaluations += o.evaluations
         self.nontrivial |= o.nontrivial
+        self.nontrivial_n += o.nontrivial_n
         self.classes.update(o.classes)
         for s in o.samples:
             if len(self.samples) < 12:
@@ -613,7 +621,7 @@ class ShardCtx:
             rc, tail = self._w.close()
             self.stats.monitor["worker_restarts"] += self._w.restarts
             self.stats.monitor["commands"] += self._w.commands
-            if self.variant == "asan" and ("LeakSanitizer" in tail or "AddressSanitizer" in tail):
+            if self.variant == "asan" and ("ERROR: LeakSanitizer" in tail or "ERROR: AddressSanitizer" in tail):
                 site, text = sanitizer_site(tail)
                 self.violation("sanitizer", dict(kind="sanitizer", entry="exit", what=classify_death(rc, tail), file=site, line_text=text),
                                dict(stderr=tail[-3000:]))
@@ -703,7 +711,7 @@ def finish(prop, level, tier, seed, stats, rule, t0, assumptions=(), exhaustive=
     inc = sum(stats.inconclusive.values())
     coverage = dict(
         evaluations=stats.evaluations,
-        distinct_nontrivial=len(stats.nontrivial),
+        distinct_nontrivial=len(stats.nontrivial) + stats.nontrivial_n,
         rule=rule,
         samples=stats.samples[:8],
         classes=dict(sorted(stats.classes.items())),
@@ -729,10 +737,10 @@ def finish(prop, level, tier, seed, stats, rule, t0, assumptions=(), exhaustive=
     with open(os.path.join(VERIF, "evidence", prop + ".json"), "w") as f:
         json.dump(ev, f, indent=1, default=str)
     print("[%s] tier=%s seed=%d evaluations=%d distinct_nontrivial=%d classes=%d violations=%d known=%d inconclusive=%d wall=%.1fs"
-          % (prop, tier, seed, stats.evaluations, len(stats.nontrivial), len(stats.classes), len(seen), len(stats.known), inc, time.time() - t0))
+          % (prop, tier, seed, stats.evaluations, len(stats.nontrivial) + stats.nontrivial_n, len(stats.classes), len(seen), len(stats.known), inc, time.time() - t0))
     if seen:
         return 1
-    if stats.evaluations == 0 or len(stats.nontrivial) < 2:
+    if stats.evaluations == 0 or len(stats.nontrivial) + stats.nontrivial_n < 2:
         print("[%s] harness failure: nothing conclusive observed" % prop)
         for k in list(stats.inconclusive)[:3]:
             print("  inconclusive: %s" % k[:1500])
